@@ -318,3 +318,171 @@ class Xform(Harness):
 register(Xform("xform-copy-rename", ["copy", "rename"]))
 register(Xform("xform-dedup-fuse", ["dedup", "fuse"]))
 register(Xform("xform-split-expand", ["split", "expand"]))
+
+
+# ---------------------------------------------------------------------------------------------------------------------
+# symbolic names: node, output and template names are solver variables (strings over a small alphabet)
+# ---------------------------------------------------------------------------------------------------------------------
+SYM_ALPHA = "a."  # two characters are enough to build names that are prefixes / suffixes / share characters with their parents
+ATTR_ALPHA = "name"  # output names over these letters can spell an attribute of Node ("name")
+
+
+class XformSymNames(Harness):
+    """The names themselves are solver variables: one explored path stands for every name (within the length bound and
+    alphabet) that drives the string handling of the transformers down the same branches."""
+
+    name = "xform-symnames"
+    engine = "E1-crosshair"
+    properties = ("C11",)
+    rule = ("one path = one feasible combination of branch outcomes of the string handling over symbolic node / output / template names; "
+            "non-trivial = every path (all have >=2 nodes and a symbolic name)")
+    assumptions = ["names are strings over the stated alphabet and length bound; node names unique; prefixed names do not collide with existing names (precondition of the prefixing scheme)"]
+    outside = ["names longer than the bound or over other alphabets", "graphs other than the fixed 3-4 node shapes of this harness"]
+
+    def shards(self, tier):
+        t = tier == "thorough"
+        out = [{"op": "expand", "xlen": 3 if t else 2, "llen": 3 if t else 2, "mode": m} for m in ("map", "nomap", "terminal")]
+        out += [{"op": "rename", "len": 3 if t else 2}, {"op": "outputs", "len": 4, "via": "copy"}, {"op": "outputs", "len": 4, "via": "rename"},
+                {"op": "outputs", "len": 4, "via": "expand-noop"}, {"op": "outputs", "len": 4, "via": "fuse-never"}, {"op": "outputs", "len": 4, "via": "split"},
+                {"op": "outputs", "len": 4, "via": "dedup"}, {"op": "split", "len": 2}]
+        return out
+
+    def budget(self, tier):
+        return 200.0 if tier == "quick" else 900.0
+
+    def per_path_timeout(self, tier):
+        return 60.0
+
+    def bounds(self, tier):
+        t = tier == "thorough"
+        return {"node_name_alphabet": SYM_ALPHA, "node_name_len": "1..3" if t else "1..2", "output_name_alphabet": ATTR_ALPHA, "output_name_len": "1..4",
+                "graphs": "source -> X -> consumer (+ sibling), template source -> leaf (+ inner sink)"}
+
+    def functions(self):
+        return [g_transform.Transformer, g_copy.copy_graph, g_rename.rename_nodes, g_dedup.deduplicate_nodes, g_fuse.fuse_nodes, g_split.split_graph, g_split.Splitter,
+                g_expand.expand_graph, g_expand.Splicer, g_expand._Expander, g_expand._Subgraph]
+
+    def body(self, ch, params):
+        getattr(self, "sym_" + params["op"])(ch, params)
+
+    # -- expand: X is replaced by  S -> L  (L is the leaf named by the output map, or by the same-name fallback) -----
+    def sym_expand(self, ch, params):
+        X = ch.str("X", params["xlen"], SYM_ALPHA)
+        L = ch.str("L", params["llen"], SYM_ALPHA)
+        ch.assume(len(X) >= 1 and len(L) >= 1)
+        mode = params["mode"]
+        sib = "c"  # consumer / sibling names are fixed and cannot collide: "c" is not in the alphabet
+        src = Node("s", payload="ps")
+        if mode == "terminal":
+            # X is terminal and declares an output: its leaf must stay in the graph
+            x = Node(X, payload="px", x=src)
+            g = Graph([x])
+        else:
+            x = Node(X, payload="px", x=src)
+            c = Node(sib, outputs=[], payload="pc", i=x)
+            g = Graph([c])
+        use_map = mode != "nomap"
+        if not use_map:
+            # without an output map the leaf is the sink named like the output
+            ch.assume(L == Node.DEFAULT_OUTPUT)
+
+        def expander(node):
+            if node.name != X:
+                return None
+            s = Node("x", payload="tsrc")
+            leaf = Node(L, outputs=[], payload="tleaf", i=s)
+            inner = Node("c2", outputs=[], payload="tinner", i=s)
+            sub = Graph([leaf, inner])
+            if use_map:
+                return sub, None, {Node.DEFAULT_OUTPUT: L}
+            return sub
+
+        g2 = guarded("expand", lambda: g_expand.expand_graph(expander, g))
+        st = guarded("expand-result-walk", lambda: graphgen.structure(g2))
+        leafname = X + "." + L
+        want = {
+            "s": ((Node.DEFAULT_OUTPUT,), repr("ps"), ()),
+            X + ".x": ((Node.DEFAULT_OUTPUT,), repr("tsrc"), (("input", "s", Node.DEFAULT_OUTPUT),)),
+            leafname: ((Node.DEFAULT_OUTPUT,), repr("tleaf"), (("i", X + ".x", Node.DEFAULT_OUTPUT),)),
+            X + ".c2": ((), repr("tinner"), (("i", X + ".x", Node.DEFAULT_OUTPUT),)),
+        }
+        if mode != "terminal":
+            want[sib] = ((), repr("pc"), (("i", leafname, Node.DEFAULT_OUTPUT),))
+            # a sink of the template that no consumer of X reaches is not a sink of the input graph: the result may leave it
+            # out (it does), but if present it must be wired as above
+            if (X + ".c2") not in st:
+                del want[X + ".c2"]
+        if st != want:
+            raise Violation("expand-structure-differs", "result of expanding a node with a solver-chosen name differs from the documented wiring")
+
+    # -- rename: three nodes with symbolic names, an injective renaming ---------------------------------------------
+    def sym_rename(self, ch, params):
+        A = ch.str("A", params["len"], SYM_ALPHA)
+        B = ch.str("B", params["len"], SYM_ALPHA)
+        ch.assume(A != B)
+        a = Node(A, payload="pa")
+        b = Node(B, outputs=["o", "p"], payload="pb", x=a)
+        c = Node("c", outputs=[], payload="pc", i=b.get_output("p"), j=a)
+        g = Graph([c])
+        which = ch.pick(2, "renamer")
+        rf = (lambda n: "r." + n) if which == 0 else (lambda n: n + ".")
+        g2 = guarded("rename", lambda: g_rename.rename_nodes(rf, g))
+        st = guarded("rename-result-walk", lambda: graphgen.structure(g2))
+        want = {
+            rf(A): ((Node.DEFAULT_OUTPUT,), repr("pa"), ()),
+            rf(B): (("o", "p"), repr("pb"), (("x", rf(A), Node.DEFAULT_OUTPUT),)),
+            rf("c"): ((), repr("pc"), tuple(sorted([("i", rf(B), "p"), ("j", rf(A), Node.DEFAULT_OUTPUT)]))),
+        }
+        if st != want:
+            raise Violation("rename-structure-differs", "renaming nodes with solver-chosen names changed more than the names")
+
+    # -- an output with a symbolic name, read by a consumer, through every transformation ------------------------------
+    def sym_outputs(self, ch, params):
+        O = ch.str("O", params["len"], ATTR_ALPHA)
+        ch.assume(len(O) >= 1)
+        via = params["via"]
+        p = Node("p", outputs=[O, "zz"], payload="pp")
+        c = Node("c", outputs=[], payload="pc", i=p.get_output(O))
+        d = Node("d", outputs=[], payload="pd", i=p.get_output("zz"))
+        g = Graph([c, d])
+        want = {"p": ((O, "zz"), repr("pp"), ()), "c": ((), repr("pc"), (("i", "p", O),)), "d": ((), repr("pd"), (("i", "p", "zz"),))}
+        if via == "copy":
+            g2 = guarded("copy", lambda: g_copy.copy_graph(g))
+        elif via == "rename":
+            g2 = guarded("rename", lambda: g_rename.rename_nodes(lambda n: n, g))
+        elif via == "expand-noop":
+            g2 = guarded("expand", lambda: g_expand.expand_graph(lambda n: None, g))
+        elif via == "fuse-never":
+            g2 = guarded("fuse", lambda: g_fuse.fuse_nodes(lambda *a: None, g))
+        elif via == "dedup":
+            g2 = guarded("dedup", lambda: g_dedup.deduplicate_nodes(g))
+        elif via == "split":
+            parts, cuts = guarded("split", lambda: g_split.split_graph(lambda nd: 0, g))
+            if len(parts) != 1 or cuts:
+                raise Violation("split-one-colour-made-cuts")
+            g2 = parts[0]
+        st = guarded(f"{via}-result-walk", lambda: graphgen.structure(g2))
+        if st != want:
+            raise Violation(f"{via}-structure-differs", "an output with a solver-chosen name is no longer what its consumer reads")
+
+    # -- split: the cut edge must name the producer and its output ----------------------------------------------------
+    def sym_split(self, ch, params):
+        A = ch.str("A", params["len"], SYM_ALPHA)
+        O = ch.str("O", params["len"], SYM_ALPHA)
+        ch.assume(len(A) >= 1 and len(O) >= 1)
+        a = Node(A, outputs=[O, "zz"], payload="pa")
+        c = Node("c", outputs=[], payload="pc", i=a.get_output(O))
+        g = Graph([c])
+        parts, cuts = guarded("split", lambda: g_split.split_graph(lambda nd: 1 if nd.name == "c" else 0, g))
+        if len(cuts) != 1:
+            raise Violation("split-cut-count", f"{len(cuts)}")
+        cut = cuts[0]
+        if not (cut.source_node == A and cut.source_output == O and cut.dest_node == "c" and cut.dest_input == "i"):
+            raise Violation("split-cut-edge-misreported", "cut edge does not name the producer/output/consumer/input it replaces")
+        names0 = sorted(n.name for n in parts[0].nodes())
+        names1 = sorted(n.name for n in parts[1].nodes())
+        if sorted(x for x in names0 if x != cut.name) != [A] or sorted(x for x in names1 if x != cut.name) != ["c"]:
+            raise Violation("split-node-in-wrong-part", f"{names0} / {names1}")
+
+
+register(XformSymNames())
